@@ -141,7 +141,7 @@ func (rc *runCtx) command(args ...string) *exec.Cmd {
 
 var (
 	panicRe = regexp.MustCompile(`(?m)^(panic: .*|fatal error: .*|.*\[recovered\].*)$`)
-	frameRe = regexp.MustCompile(`(?m)^(github\.com/inspirer/textmapper/[^\s(]+|main\.[^\s(]+)\(`)
+	frameRe = regexp.MustCompile(`(?m)^(github\.com/inspirer/textmapper/\S+|main\.\S+)\((?:[^*\s]|$)`)
 )
 
 // crashSignature reduces a dying worker's stderr to "what, where": the panic message
